@@ -466,8 +466,14 @@ namespace _ST_PRIVATE
                     return error;
                 *dest++ = badchar_substitute;
             } else {
+                // 4-byte forms above U+10FFFF decode fine but cannot be
+                // represented in UTF-16
                 error = write_utf16(dest, bigch);
-                ST_ASSERT(error == conversion_error_t::success, "Input character out of range");
+                if (error != conversion_error_t::success) {
+                    if (validation == ST::check_validity)
+                        return error;
+                    *dest++ = badchar_substitute;
+                }
             }
         }
 
